@@ -218,7 +218,7 @@ CLAIMS.update({
              'package writes into an array it was handed (so the recorded construction points '
              'stay what they were); a union read back from a checkpoint carries every member of the '
              'record.',
-        ref='DESIGN.md sections 4 C13, 10.9-10.13, 10.16, 10.17, 10.18, rules L1 L1d L6 L0 T1 T9 S2 S3 S4 G5 F9 N3 S5 G7', note=TRUST),
+        ref='DESIGN.md sections 4 C13, 10.9-10.13, 10.16, 10.17, 10.18, rules L1 L1d L6 L0 T1 T9 S2 S3 S4 G5 F9 N3 S5 S6 G7', note=TRUST),
     'C14': dict(
         technique='lockstep rule on local view arrays; purity / parameter-guarded draw; '
                   'path-wise symbolic evaluation of the repeat counts',
